@@ -22,7 +22,7 @@ def checks_for(src):
         if f == "modifiers.go": return "C15 C17 C01 C20"
         return "C17 C01 C04 C06 C15"
     if d == "dhcpv6": return "C05 C02 C06 C16 C08 C09"
-    if d == "rfc1035label": return "C19 C05 C17 C02 C09"
+    if d == "rfc1035label": return "C19 C05 C17 C02 C08 C09"
     if d == "dhcpv4/nclient4":
         if f in ("conn_unix.go", "ipv4.go"): return "C18 C03 C10"
         return "C12 C13 C10 C11"
